@@ -1,5 +1,5 @@
 # C15 — global reconstruction cost: definition and cache transparency
-import itertools, random, math
+import itertools, random, math, json
 from core import *
 import gen
 
@@ -24,7 +24,11 @@ class C15:
     rule = ('histories of 2-8 breakpoint sets (every subset with both ends for n <= 6/7, sampled above; repeated sets, the all-points set, '
             'sub-range sets) evaluated by compute_global_cost on ONE shared dict and with a fresh dict per query, for each of the 5 metrics '
             'round-robin; the same for compute_global_rmse; mip on breakpoint sets with >= 1 interior breakpoint.  non-trivial = the history '
-            'has at least one cache hit and one miss (hist/rmse) / at least two interior breakpoints (mip); distinct by (points, metric, history)')
+            'has at least one cache hit and one miss (hist/rmse) / at least two interior breakpoints (mip); distinct by (points, metric, history).  '
+            'Same-object multi-call stream: ONE points ndarray per case (a share as int64 with coordinates up to 2^40), 3-6 calls of '
+            'compute_global_cost (5 metrics, no cache argument / a new dict / the dict of the previous identical-content call), '
+            'compute_global_rmse and mip, interleaved with in-place refills by sibling curves (x extent, shift, y extent, shape); every call '
+            'judged against the model fed from separate fresh copies; non-trivial = at least one refill between two calls')
     assumptions = ['one metric per shared dict (the dict is keyed by (left,right) only, so mixing metrics or mixing compute_global_cost with '
                    'compute_global_rmse on one dict is outside the property)',
                    'finite curve with >= 2 points; breakpoint lists strictly ascending, inside the curve, >= 2 entries']
@@ -75,7 +79,76 @@ class C15:
             if len(red) < 3:
                 red = [0, rng.randint(1, n - 2), n - 1]
             cases.append({'kind': 'mip', 'points': pts, 'family': fam, 'red': red})
+        ns = {'quick': 70, 'search': 40, 'thorough': 2000}.get(tier, 70)
+        for k in range(ns):
+            cases.append(self.sequence(rng, min(nmax, 10) if tier != 'thorough' else min(nmax, 24), intmode=(k % 4 == 3)))
         return cases
+
+    # ------------------------------------------------------------------ same-object multi-call sequences
+    @staticmethod
+    def int_curve(rng, n):
+        base = rng.choice([1, 3, 1000, 3500000000, 5000000000, 2 ** 33, 2 ** 35])
+        x = rng.choice([0, 5, 2 ** 20, 2 ** 39])
+        pts = []
+        y = rng.randint(10 ** 3, 10 ** 6)
+        for _ in range(n):
+            pts.append([float(x), float(y)])
+            x += base * rng.choice([1, 1, 2])
+            y = max(0, y - rng.randint(0, max(1, y // 2)))
+        return pts
+
+    def sibling(self, rng, pts, intmode):
+        n = len(pts)
+        if intmode:
+            if rng.random() < 0.4:
+                return self.int_curve(rng, n)
+            f = rng.choice([1000, 1000, 7, 1])
+            if f * max(p[0] for p in pts) + 2 ** 30 > 2 ** 40:
+                return self.int_curve(rng, n)
+            sh = rng.choice([0, 2 ** 30, 12345])
+            if f == 1 and sh == 0:
+                sh = 999
+            return [[p[0] * f + sh, p[1] * rng.choice([1, 1, 3]) + rng.choice([0, 0, 7])] for p in pts]
+        base = gen.curve(rng, n)[1] if rng.random() < 0.45 else pts
+        fx = rng.choice([1000.0, 1000.0, 0.001, 1.0, 250.0])
+        sx = rng.choice([0.0, 0.0, 1.0e5, 3.0])
+        fy = rng.choice([1.0, 1.0, 10.0, 0.01])
+        sy = rng.choice([0.0, 0.0, 5.0])
+        if base is pts and fx == 1.0 and sx == 0.0:
+            fx = 1000.0
+        out = [[p[0] * fx + sx, p[1] * fy + sy] for p in base]
+        if any(not (a[0] < b[0]) for a, b in zip(out, out[1:])) or any(not math.isfinite(v) for p in out for v in p):
+            return gen.curve(rng, n, 'grid')[1]
+        return out
+
+    def sequence(self, rng, nmax, intmode):
+        n = rng.randint(3, max(3, nmax))
+        pts = self.int_curve(rng, n) if intmode else gen.curve(rng, n)[1]
+        nsteps = rng.randint(3, 6)
+        steps = []
+        base_metric = rng.choice(METRICS)
+        base_red = gen.random_subset_with_ends(rng, n)
+        prev = None
+        for i in range(nsteps):
+            if i > 0 and rng.random() < 0.6:
+                pts = self.sibling(rng, pts, intmode)
+            fn = rng.choice(['gcost', 'gcost', 'gcost', 'grmse', 'mip'])
+            metric = base_metric if rng.random() < 0.6 else rng.choice(METRICS)
+            u = rng.random()
+            red = base_red if u < 0.5 else (list(range(n)) if u < 0.6 else gen.random_subset_with_ends(rng, n))
+            if fn == 'mip' and len(red) < 3:
+                red = [0, rng.randint(1, n - 2), n - 1]
+            st = {'points': pts, 'fn': fn, 'red': list(red)}
+            if fn == 'gcost':
+                st['metric'] = metric
+            if fn != 'mip':
+                # the dict argument: none, a new one, or the dict the previous call left — only legitimate when that call was the same
+                # function (and metric) on the same buffer contents
+                same = prev is not None and prev['fn'] == fn and prev['points'] == pts and prev.get('metric') == st.get('metric') and prev['cache'] != 'none'
+                st['cache'] = 'shared' if (same and rng.random() < 0.7) else rng.choice(['none', 'none', 'new'])
+            steps.append(st)
+            prev = st
+        return {'kind': 'seq', 'steps': steps, 'int64': bool(intmode and rng.random() < 0.8), 'family': 'seq-int' if intmode else 'seq'}
 
     def history(self, rng, n):
         k = rng.randint(2, 8)
@@ -139,11 +212,75 @@ class C15:
                 ent.append([BOGUS[0], BOGUS[1], math.nan])
         return {'seg': ent, 'tss': tss}
 
+    def run_seq(self, c):
+        import numpy as np
+        import kneeliverse.evaluation as ev
+        import kneeliverse.linear_fit as lf
+        import kneeliverse.metrics as metrics
+        c = dict(c)
+        steps = [dict(st) for st in c['steps']]
+
+        def pairs(q):
+            return [(q[i], q[i + 1]) for i in range(len(q) - 1)]
+
+        # the model's oracle tables first, from separate fresh float64 copies
+        for st in steps:
+            fresh = np.array(st['points'], dtype=float)
+            if st['fn'] == 'gcost':
+                M = metrics.Metrics[st['metric']]
+                tab = []
+                for (l, r) in sorted({k for k in pairs(st['red']) if k[1] - k[0] >= 2}):
+                    pt = fresh[l:r + 1]
+                    s2, v = call(lambda: ev.compute_partial_cost(pt[:, 1], lf.linear_fit_transform_points(pt), M))
+                    tab.append([l, r, fnum(v) if s2 == 'ok' else math.nan])
+                y = fresh[:, 1]
+                st['segtab'] = tab
+                st['tss'] = float(np.sum(np.square(y - np.mean(y))))
+            else:
+                qs = [st['red']]
+                if st['fn'] == 'mip':
+                    qs += [st['red'][:i] + st['red'][i + 1:] for i in range(1, len(st['red']) - 1)]
+                st['sqtab'] = self.sqtab(fresh, sorted({k for q in qs for k in pairs(q)}))
+                if st['fn'] == 'mip':
+                    # the reference RMSEs of the mip predicate: the implementation's own compute_global_rmse on a fresh copy
+                    s2, v = call(ev.compute_global_rmse, np.array(st['points'], dtype=float), np.array(st['red']))
+                    st['fin'] = fnum(v) if s2 == 'ok' else None
+                    st['refs'] = []
+                    for q in qs[1:]:
+                        s2, v = call(ev.compute_global_rmse, np.array(st['points'], dtype=float), np.array(q))
+                        st['refs'].append(fnum(v) if s2 == 'ok' else None)
+        # ONE points object for the whole sequence, refilled in place
+        dt = np.int64 if c.get('int64') else float
+        buf = np.array(steps[0]['points'], dtype=dt)
+        cur = steps[0]['points']
+        d = None
+        for st in steps:
+            if st['points'] != cur:
+                buf[...] = np.array(st['points'], dtype=dt)
+                cur = st['points']
+            red = np.array(st['red'])
+            if st['fn'] == 'mip':
+                s2, v = call(ev.mip, buf, red)
+                st['out'] = [fnum(v[0]), fnum(v[1])] if s2 == 'ok' else None
+                continue
+            if st['cache'] == 'new':
+                d = {}
+            elif st['cache'] == 'none':
+                d = None
+            args = (buf, red, metrics.Metrics[st['metric']]) if st['fn'] == 'gcost' else (buf, red)
+            f = ev.compute_global_cost if st['fn'] == 'gcost' else ev.compute_global_rmse
+            s2, v = call(f, *args) if d is None else call(f, *args, d)
+            st['out'] = fnum(v) if s2 == 'ok' else None
+        c['steps'] = steps
+        return c
+
     def run_impl(self, c):
         import numpy as np
         import kneeliverse.evaluation as ev
         import kneeliverse.linear_fit as lf
         import kneeliverse.metrics as metrics
+        if c['kind'] == 'seq':
+            return self.run_seq(c)
         c = dict(c)
         pts = np.array(c['points'], dtype=float)
         n = len(pts)
@@ -225,9 +362,21 @@ class C15:
         return tab
 
     # ------------------------------------------------------------------ emission
+    def emit_step(self, st):
+        pts = cpts(st['points'])
+        if st['fn'] == 'gcost':
+            return '(CCost %s %s %s %s %s %s)' % (MCOQ[st['metric']], pts, ctab(st['segtab']), fl(st['tss']), cnats(st['red']), copt(st.get('out'), fl))
+        if st['fn'] == 'grmse':
+            return '(CRm %s %s %s %s)' % (pts, ctab(st['sqtab']), cnats(st['red']), copt(st.get('out'), fl))
+        return '(CMip %s %s %s %s %s %s)' % (pts, ctab(st['sqtab']), cnats(st['red']),
+                                              copt(st.get('out'), lambda o: '(%s, %s)' % (fl(o[0]), fl(o[1]))), copt(st.get('fin'), fl),
+                                              clist([copt(v, fl) for v in st.get('refs', [])]))
+
     def emit(self, c):
         if c.get('skip'):
             return 'CRmse [] [] [] [] [] []'
+        if c['kind'] == 'seq':
+            return 'CSeq %s' % clist([self.emit_step(st) for st in c['steps']])
         pts = cpts(c['points'])
         if c['kind'] == 'hist':
             return 'CHist %s %s %s %s %s %s %s %s' % (
@@ -261,6 +410,9 @@ class C15:
     def nontrivial_key(self, c):
         if c.get('skip'):
             return None
+        if c['kind'] == 'seq':
+            st = c['steps']
+            return ('seq', json.dumps(st, sort_keys=True, default=str)) if any(a['points'] != b['points'] for a, b in zip(st, st[1:])) else None
         if c['kind'] in ('hist', 'rmse'):
             h, m = self.hits_misses(c['hist'], c['kind'] == 'hist')
             if h >= 1 and m >= 1:
@@ -273,6 +425,13 @@ class C15:
     def classify(self, c):
         if c.get('skip'):
             return {'kind': 'skipped'}
+        if c['kind'] == 'seq':
+            st = c['steps']
+            return {'kind': 'seq', 'dtype': 'int64' if c.get('int64') else 'float64', 'seq_calls': len(st),
+                    'seq_refills': sum(1 for a, b in zip(st, st[1:]) if a['points'] != b['points']),
+                    'seq_functions': len({x['fn'] + x.get('metric', '') for x in st}),
+                    'seq_shared_dict_steps': sum(1 for x in st if x.get('cache') == 'shared'),
+                    'seq_no_cache_steps': sum(1 for x in st if x.get('cache') == 'none')}
         out = {'kind': c['kind'], 'n': len(c['points']), 'family': c.get('family', '?')}
         if c['kind'] == 'hist':
             out['metric'] = c['metric']
@@ -284,6 +443,22 @@ class C15:
 
     def shrink(self, c):
         out = []
+        if c['kind'] == 'seq':
+            st = c['steps']
+            drop = ('out', 'segtab', 'tss', 'sqtab', 'fin', 'refs')
+            for j in range(len(st)):
+                if len(st) > 1:
+                    d = dict(c)
+                    rest = [{k: v for k, v in x.items() if k not in drop} for x in st[:j] + st[j + 1:]]
+                    # a dict may only be shared with an identical preceding call
+                    for a in range(len(rest)):
+                        if rest[a].get('cache') == 'shared':
+                            p = rest[a - 1] if a > 0 else None
+                            if not (p and p['fn'] == rest[a]['fn'] and p['points'] == rest[a]['points'] and p.get('metric') == rest[a].get('metric') and p.get('cache') != 'none'):
+                                rest[a]['cache'] = 'new'
+                    d['steps'] = rest
+                    out.append(d)
+            return out
         pts = c['points']
         n = len(pts)
 
@@ -328,10 +503,27 @@ class C15:
         return out
 
     def sample(self, c):
+        if c['kind'] == 'seq':
+            return {'kind': 'seq', 'int64': c.get('int64'), 'steps': [{k: v for k, v in st.items() if k in ('points', 'fn', 'metric', 'red', 'cache', 'out')} for st in c['steps'][:3]]}
         keys = ['kind', 'metric', 'points', 'hist', 'red', 'shared', 'fresh', 'out']
         return {k: c[k] for k in keys if k in c}
 
     def describe(self, c):
+        if c['kind'] == 'seq':
+            lines = ['P = np.array(%s, dtype=%s)   # the same object for every call' % (c['steps'][0]['points'], 'np.int64' if c.get('int64') else 'float')]
+            cur = c['steps'][0]['points']
+            for st in c['steps']:
+                if st['points'] != cur:
+                    lines.append('P[...] = %s' % st['points'])
+                    cur = st['points']
+                if st['fn'] == 'mip':
+                    lines.append('kneeliverse.evaluation.mip(P, np.array(%s)) -> %r' % (st['red'], st.get('out')))
+                else:
+                    ca = {'none': '', 'new': ', d := {}', 'shared': ', d (the same dict as the previous call)'}[st['cache']]
+                    lines.append('kneeliverse.evaluation.%s(P, np.array(%s)%s%s) -> %r' % (
+                        'compute_global_cost' if st['fn'] == 'gcost' else 'compute_global_rmse', st['red'],
+                        ', Metrics.' + st['metric'] if st['fn'] == 'gcost' else '', ca, st.get('out')))
+            return '; '.join(lines)
         p = 'np.array(%s)' % c['points']
         if c['kind'] == 'hist':
             return ('d = {}; [kneeliverse.evaluation.compute_global_cost(%s, np.array(q), kneeliverse.metrics.Metrics.%s, d) for q in %s] '
